@@ -29,6 +29,7 @@ func init() {
 			"process (pools/caches warm, ID counter advanced), and (every 3rd case) a run in a fresh process with a different GOMAXPROCS; all equal. " +
 			"(2) checksum pairs: equal raw records at different positions / in different inputs -> equal checksums; one ingested leaf value changed " +
 			"(column, element text, attribute value, JSON scalar incl. 1 vs \"1\", null vs \"\", true vs \"true\") -> different checksums. " +
+			"Also: several failing fields in one object; a Schema object whose first transform had other external properties; bulk inputs (250-900 records) with javascript_with_context on the record and its ancestors, compared with a fresh process. " +
 			"distinct = digest(schema, input) / digest(pair); non-trivial = transcript with >=2 records.",
 		Assumptions: []string{
 			"`now`, uuid-generating and randomness-drawing scripts are excluded by the statement and never generated",
